@@ -145,6 +145,15 @@ Proof.
   apply IH; [exact Hhi|lia].
 Qed.
 
+Lemma give_up_sum_done : forall fuel i hi lk, hi <= n -> (N.to_nat (hi - i)%N < fuel)%nat ->
+  is_done (give_up_sum P fuel i hi lk).
+Proof.
+  induction fuel as [|f IH]; intros i hi lk Hhi Hf; [lia|]. cbn [give_up_sum].
+  destruct (i <? hi) eqn:E; [|exact I]. apply N.ltb_lt in E.
+  rewrite rdP by lia. cbn [bind]. destruct (negb (dkey (g i) =? lk)); [exact I|].
+  apply is_done_bind; [apply IH; [exact Hhi|lia]|]. intros r _. exact I.
+Qed.
+
 Lemma words_loop_done : forall fuel hi tord nt maxw st, hi <= n -> (N.to_nat (hi - ts_idx st)%N < fuel)%nat ->
   is_done (words_loop P fuel hi tord nt maxw st).
 Proof.
@@ -160,12 +169,14 @@ Proof.
   apply is_done_bind.
   { destruct (SPAN_CAP <=? N.of_nat (length spans1)); [|exact I].
     destruct (SPAN_CAP <=? N.of_nat (length (compact spans1 maxw))); [|exact I].
-    apply is_done_bind; [|intros; exact I]. apply give_up_done; [exact Hhi|lia]. }
-  intros [[[spans2 idx2] ck2] full2] Hcg. cbv beta iota.
+    apply is_done_bind; [apply give_up_done; [exact Hhi|lia]|]. intros gu _.
+    apply is_done_bind; [apply give_up_sum_done; [exact Hhi|lia]|]. intros; exact I. }
+  intros [[[[spans2 idx2] ck2] full2] extra] Hcg. cbv beta iota.
   assert (Hidx : ts_idx st + 1 <= idx2).
   { destruct (SPAN_CAP <=? N.of_nat (length spans1)).
     - destruct (SPAN_CAP <=? N.of_nat (length (compact spans1 maxw))).
       + apply bind_inv in Hcg as (gu & Hg & Hcg). apply give_up_ge in Hg.
+        apply bind_inv in Hcg as (ex & _ & Hcg).
         inversion Hcg; subst. destruct (fst gu); lia.
       + inversion Hcg; subst. lia.
     - inversion Hcg; subst. lia. }
@@ -180,11 +191,12 @@ Proof.
   intros [|f] hi tord nt maxw st st' Hlt H; cbn [words_loop] in H; [discriminate|].
   rewrite ltb_true in H by exact Hlt.
   apply bind_inv in H as (w & _ & H). apply bind_inv in H as ([spans1 full1] & _ & H).
-  apply bind_inv in H as (ck & _ & H). apply bind_inv in H as ([[[spans2 idx2] ck2] full2] & Hcg & H).
+  apply bind_inv in H as (ck & _ & H). apply bind_inv in H as ([[[[spans2 idx2] ck2] full2] extra] & Hcg & H).
   assert (Hidx : ts_idx st + 1 <= idx2).
   { destruct (SPAN_CAP <=? N.of_nat (length spans1)).
     - destruct (SPAN_CAP <=? N.of_nat (length (compact spans1 maxw))).
       + apply bind_inv in Hcg as (gu & Hg & Hcg). apply give_up_ge in Hg.
+        apply bind_inv in Hcg as (ex & _ & Hcg).
         inversion Hcg; subst. destruct (fst gu); lia.
       + inversion Hcg; subst. lia.
     - inversion Hcg; subst. lia. }
@@ -552,12 +564,12 @@ Proof.
   destruct (ts_idx st <? hi); [|inversion H; subst; exact Hl].
   apply bind_inv in H as (w & _ & H). apply bind_inv in H as ([spans1 full1] & Hbl & H).
   apply bits_loop_len in Hbl; [|exact Hl]. cbn [fst] in Hbl.
-  apply bind_inv in H as (ck & _ & H). apply bind_inv in H as ([[[spans2 idx2] ck2] full2] & Hcg & H).
+  apply bind_inv in H as (ck & _ & H). apply bind_inv in H as ([[[[spans2 idx2] ck2] full2] extra] & Hcg & H).
   assert (H2 : len spans2 <= SPAN_CAP).
   { pose proof (compact_len spans1 maxw) as Hc.
     destruct (SPAN_CAP <=? len spans1).
     - destruct (SPAN_CAP <=? len (compact spans1 maxw)).
-      + apply bind_inv in Hcg as (gu & _ & Hcg). inversion Hcg; subst. lia.
+      + apply bind_inv in Hcg as (gu & _ & Hcg). apply bind_inv in Hcg as (ex & _ & Hcg). inversion Hcg; subst. lia.
       + inversion Hcg; subst. lia.
     - inversion Hcg; subst. exact Hbl. }
   destruct (negb (ck2 =? ts_curr_key st)).
@@ -587,7 +599,8 @@ Qed.
 (* one document in which the two phrase terms alternate 400 times, slop 1000: the table fills up (512 spans),
    compaction cannot free a slot, and the second term takes the give-up path (the table returned by terms_loop
    still has SPAN_CAP entries, which only the give_up branch of words_loop leaves behind); nothing faults.
-   This is the situation in which the unrepaired code stored to spans.end[512] (D16). *)
+   This is the situation in which the unrepaired code stored to spans.end[512] (D16).  With give_up_sum (D32) the
+   skipped words still count, so the estimate is min(400, 400) = 400 (it was 9 before that repair). *)
 Fixpoint alt12 (k : nat) : list N := match k with O => [] | S k' => 1 :: 2 :: alt12 k' end.
 
 Definition table_probe (docs : list (list N)) (ts : list N) (slop : N) : option (nat * bool * list N * api (list N)) :=
@@ -615,7 +628,7 @@ Definition table_probe (docs : list (list N)) (ts : list N) (slop : N) : option 
   end.
 
 Example span_table_full_no_fault :
-  table_probe [alt12 400; [1; 2]] [1; 2] 1000 = Some (512%nat, true, [400; 9], AOk [9; 1]).
+  table_probe [alt12 400; [1; 2]] [1; 2] 1000 = Some (512%nat, true, [400; 400], AOk [400; 1]).
 Proof. vm_compute. reflexivity. Qed.
 
 (* control: half as many repetitions stay below the capacity (432 spans), every word is consumed *)
